@@ -25,16 +25,16 @@ type tgProp struct {
 }
 
 type tgCase struct {
-	Rev     bool                `json:"rev,omitempty"` // print properties (and choice alternatives) in reverse order
+	Rev bool `json:"rev,omitempty"` // print properties (and choice alternatives) in reverse order
 	// RootAlias: the root is registered under a second name as well and every link to the root is written with that
 	// name (TypeGraph.tla speaks of types, not of names: which of its names a link uses does not matter)
-	RootAlias string `json:"rootalias,omitempty"`
-	Types   map[string][]tgProp `json:"types"`
-	Forms   map[string]string   `json:"forms,omitempty"`      // "object" (default) | "nullable-object" | "alias" | "nullable-alias"
-	OptDef  bool                `json:"optdefault,omitempty"` // every schema object is created with AreKeysOptionalByDefault
-	Finite  bool                `json:"finite"`
-	SelfReq bool                `json:"selfreq"`
-	Cycle   bool                `json:"cycle"`
+	RootAlias string              `json:"rootalias,omitempty"`
+	Types     map[string][]tgProp `json:"types"`
+	Forms     map[string]string   `json:"forms,omitempty"`      // "object" (default) | "nullable-object" | "alias" | "nullable-alias"
+	OptDef    bool                `json:"optdefault,omitempty"` // every schema object is created with AreKeysOptionalByDefault
+	Finite    bool                `json:"finite"`
+	SelfReq   bool                `json:"selfreq"`
+	Cycle     bool                `json:"cycle"`
 }
 
 func tgName(i int) string {
